@@ -24,9 +24,9 @@ theorem withdraw_live_after_history {name : Asset → String} {p : Nat} {a0 a1 :
 
 /-- the same from genesis: the pair was created by the factory, then anything happened -/
 theorem withdraw_live_from_creation {name : Asset → String} {w w1 : World} {s : Nat} {f : List (Nat × Nat)}
-    {a0 a1 : Asset} {req : Requirements} {c : Option Nat} {np nl : Nat} {out : Out}
-    (hv : ValidOp w (.factory s f (.createPair a0 a1 req c np nl))) (hn : NewAddrs w np nl)
-    (hc : exec name w (.factory s f (.createPair a0 a1 req c np nl)) = .ok (w1, out))
+    {a0 a1 : Asset} {req : Requirements} {c ld : Option Nat} {np nl : Nat} {out : Out}
+    (hv : ValidOp w (.factory s f (.createPair a0 a1 req c ld np nl))) (hn : NewAddrs w np nl)
+    (hc : exec name w (.factory s f (.createPair a0 a1 req c ld np nl)) = .ok (w1, out))
     (ops : List Op) (hvr : ValidRun name w1 ops)
     {h a : Nat} (hhp : h ≠ np) (ha1 : 1 ≤ a)
     (hab : a ≤ bal (run name w1 ops) (.token nl) h)
